@@ -5,8 +5,8 @@ import warnings
 
 from .common import Oracle, Suite, errname, merge
 
-GEN_UNITS = ["Handlers", "PyUnicode", "UsingSettings", "UsingBool", "Rng", "PyCase", "Decisions"]
-LEAN_TARGETS = ["PasslibVerif.Props.C09", "PasslibVerif.Props.C09Salt", "PasslibVerif.Props.C09Gen"]
+GEN_UNITS = ["Handlers", "PyUnicode", "UsingSettings", "UsingBool", "Rng", "PyCase", "Decisions", "UsingMisc"]
+LEAN_TARGETS = ["PasslibVerif.Props.C09", "PasslibVerif.Props.C09Salt", "PasslibVerif.Props.C09Gen", "PasslibVerif.Props.C09Misc"]
 ASSUMPTIONS = [
     "float vary_rounds: the integer `int(default_rounds * vary_rounds)` is taken from the running interpreter (atom); log2-cost hashers with float vary are compared on the real code only",
     "type()-based subclass creation and attribute lookup follow CPython's MRO semantics (modelled as a class table)",
@@ -187,7 +187,12 @@ def correspond(ctx):
 
     s_salt = Suite(ctx, "using-salt-ident-truncate-model")
     c09_salt.model_suite(ctx, s_salt)
-    return merge(s_r, s_iso, s_int, o_set, s_salt)
+    # fshp variant, scrypt block_size / parallelism, bcrypt_sha256 version, scram algs, unix_disabled marker: Model.UsingMisc (suite `umisc`)
+    from . import c09_misc
+
+    s_misc = Suite(ctx, "using-misc-model")
+    c09_misc.model_suite(ctx, s_misc)
+    return merge(s_r, s_iso, s_int, o_set, s_salt, s_misc)
 
 
 def settings_oracle(ctx, o, first_only=False):
@@ -615,6 +620,20 @@ def replay(ctx, inp):
         hs = h.hash("pw")
         flagged = h.needs_update(hs)
         return {"fails": bool(flagged), "observed": {"window": [h.min_desired_rounds, h.max_desired_rounds], "fresh_hash": hs, "needs_update": flagged}}
+    if inp.get("op") == "setting-then-hash":
+        # a setting using() accepts must give a class that can hash; a setting it cannot serve is refused with a value / type error
+        from passlib import registry
+
+        h = registry.get_crypt_handler(inp["hasher"])
+        try:
+            sub = h.using(**inp["kwds"])
+        except (ValueError, TypeError) as e:
+            return {"fails": False, "observed": "refused: " + type(e).__name__ + ": " + str(e)[:80]}
+        try:
+            hs = sub.hash("pw")
+            return {"fails": False, "observed": {"hash": hs}}
+        except Exception as e:  # noqa: BLE001
+            return {"fails": True, "observed": "accepted by using(), then hash() raised " + type(e).__name__ + ": " + str(e)[:80]}
     if inp.get("op") == "scrypt-using":
         from passlib.hash import scrypt
 
